@@ -109,6 +109,17 @@ def check_program(case, col=None):
             if nt:
                 sample = {"mode": mode, "page": pg.template_source(prog["page"]["tpl"])[:400], "components": {c["name"]: pg.template_source(c["tpl"])[:300] for c in prog["comps"]}, "output": (info.get("real") or "")[:200]}
             col.case(jhash([prog, mode]), nt, sample=sample, labels=labels)
+        # dynamic variant of an expected-error program: must raise TemplateSyntaxError like the tag form
+        if case.get("dynamic") and info["model"] == "error" and not f:
+            from django.template import TemplateSyntaxError
+
+            res = pgrun.run_real(prog, mode, {"dynamic": "name"}, budget=40 * info["instances"] + 100)
+            if col is not None:
+                col.count("variant:dynamic(expected-error)")
+            if res.exc is None:
+                fails.append(("[%s] tag form raises TemplateSyntaxError, the dynamic-component variant renders %r" % (mode, pg.normalize_real(res.out)[:300]), "c01-dynamic-missing-error"))
+            elif not isinstance(res.exc, TemplateSyntaxError):
+                fails.append(("[%s] tag form raises TemplateSyntaxError, the dynamic-component variant raises %r" % (mode, res.exc), "c01-dynamic-wrong-error:" + exc_bucket(res.exc)))
         # dynamic variant
         if case.get("dynamic") and info["model"] == "ok" and not f and "real" in info:
             res = pgrun.run_real(prog, mode, {"dynamic": "name"}, budget=40 * info["instances"] + 100)
